@@ -279,12 +279,8 @@ func c04Run(b *core.B) {
 		"Next.Name", "Next.Label()", "Next.PLabel()", "Next.Next.Name", "Next.Next.PLabel()", "Self().Name", "PSelf().Name", "Self().Self().Label()", "PSelf().Next.PLabel()", "Tags[0]", "Tags[5]", "M[\"k\"]", "M[\"zz\"]", "Next.Tags[0]", "Strs()[0]", "Any.Name", "Name.Name", "Len()", "String()", "Format(\"2006\")", "HTML()", "Next()", "A()", "Z()", "Z().x", "T", "T.Name"}
 	for _, r := range kn {
 		for _, m := range members {
-			if (r == "v_embeds_nil" || r == "v_reflect_value_false" || r == "v_embeds_nil_stringer" || r == "v_embeds_nil_htmler") && strings.Contains(m, "(") {
-				// (reflect.Value's own methods panic on the wrong kind, e.g. Len() of a bool)
-				// a method promoted from a nil embedded pointer panics in Go itself
-				// when called: that is the data's doing, not the engine's
-				continue
-			}
+			// (methods that panic themselves - promoted from a nil embedded pointer or interface,
+			// reflect.Value.Len on a bool - are calls that fail: an error, not a panic of the engine)
 			cell("member", "<%= "+r+"."+m+" %>")
 			cell("member-cond", "<% if ("+r+"."+m+") { %>T<% } %>")
 		}
@@ -500,7 +496,7 @@ func init() {
 		ID:         "C04",
 		Level:      "exploration",
 		Rule:       fmt.Sprintf("one tiny template per cell of exhaustive matrices over a pool of %d value kinds (fresh context per cell): operator x left x right, index read/write x container x index x value, receiver x member/method, iterable, callee signature x argument tuples (0-3 args), user functions x arity, every built-in helper (enumerated from plush.Helpers at run time) x argument kinds; plus random well-formed programs with leaves from the pool. A cell is non-trivial when it was rendered (all are distinct by construction; random programs are counted by hash). Oracle: recover() sees no panic; an error comes with empty output.", len(Kinds)),
-		Assume:     []string{"fixture methods and helper fixtures are total themselves, so a panic is the engine's or a built-in helper's", "process-fatal errors are caught by the supervisor through the journal"},
+		Assume:     []string{"a panic that reaches the caller of Render is the engine's: fixture methods are total, except the ones that are there to panic (promoted from nil embedded values, reflect.Value.Len on a bool), whose panic must come back as an error", "process-fatal errors are caught by the supervisor through the journal"},
 		Batches:    batchesQT(32, 64),
 		Run:        c04Run,
 		Exhaustive: func(core.Tier) bool { return true },
